@@ -15,25 +15,31 @@ import os
 import random as _random
 
 CLAIM = dict(
-    text=("Machine-checked proof (Lean 4): the executable decision procedure validTree is sound and complete for the "
-          "declarative ValidTree (rooted at the source chip; chips pairwise distinct; every hop a working link from a "
-          "working chip to the adjacent working chip modulo the machine size; leaves exactly the sinks with their "
-          "cores / endpoint route) and a valid tree physically connects the source chip to every "
-          "sink chip over working links; every path a_star returns starts in `sources`, runs over working links "
-          "through chips outside `sources` and ends next to the sink, and a_star fails only with the disconnected-"
-          "machine error; every edge copy_and_disconnect_tree keeps is a working link between adjacent working chips; "
-          "every hop of a longest-dimension-first walk is the link named by its direction. The repair loop "
-          "(avoid_dead_links) and whole-net validity are NOT proved: they are covered by exact stage-wise "
+    text=("Machine-checked proof (Lean 4), for ALL machines, nets, radii, random tie-breaks and set orders: (1) the "
+          "executable decision procedure validTree is sound and complete for the declarative ValidTree (rooted at the "
+          "source chip; chips pairwise distinct; every hop a working link of a working chip to the adjacent working "
+          "chip modulo the machine size; leaves exactly the sinks with their cores / endpoint route), and a valid tree "
+          "physically connects the source chip to every sink chip over working links; (2) every path a_star returns "
+          "starts in `sources`, runs over working links through chips outside `sources` and ends next to the sink; "
+          "(3) copy_and_disconnect_tree keeps only working chips and working links between adjacent chips; (4) every "
+          "hop of a longest-dimension-first walk, and every edge ner_net creates, is the link named by its direction; "
+          "(5) every hop of every tree the model of route() returns (with or without the dead-link repair, any "
+          "processing order of the broken links) follows a working link of a working chip to the adjacent chip, and "
+          "every leaf is an expected sink leaf. NOT proved: chip-distinctness / connectedness after the repair loop, "
+          "completeness of the leaves, and the error clause; these are covered per case by exact stage-wise "
           "correspondence of the real code with the model (recorded random draws and set orders) and by validTree "
-          "evaluated on every tree the real router returns, with the error clause decided by a Lean strong-"
-          "connectivity computation."),
+          "evaluated on every tree the real router returns, the error clause being decided by a Lean strong-"
+          "connectivity computation cross-checked against an independent Python one."),
     design="3/C03",
-    note=("PARTIAL: theorems cover the specification's decision procedure, A*, the disconnecting copy and the LDF "
-          "walk; ner_net validity on the fault-free machine and the repair-loop invariant are validated, not proved. "
-          "Link/route tables regenerated from rig/links.py and routing_table/entries.py."),
+    note=("PARTIAL: nerNet_valid, avoidDeadLinks_valid (one parent per node / no cycle), aStar_complete and "
+          "route_only_failure of DESIGN 3/C03 are not proved; the proved parts are named ..._partial with the full "
+          "statement in a comment. Link/route tables are regenerated from rig/links.py and "
+          "routing_table/entries.py on every run. Stub branches (childless non-sink nodes) left behind by the repair "
+          "are observed on the real code and are not treated as a violation."),
     technique="Lean 4 theorems over a hand-written model + differential correspondence + Lean spec as oracle")
 
-THEOREMS = ["link_tables", "validTree_iff", "validTree_connects", "aStar_path", "copyAndDisconnect_live", "walk_hops", "ldf_hops", "nerNet_edges_partial"]
+THEOREMS = ["link_tables", "validTree_iff", "validTree_connects", "aStar_path", "copyAndDisconnect_live",
+            "walk_hops", "ldf_hops", "nerNet_edges_partial", "routeNet_repaired_live", "routeNet_tree_partial"]
 
 RULE = ("machines 1x1..12x12 (incl. 1xN, 2xN), torus / mesh / partly wrapped, 0-30% dead directed links (half of them "
         "dead in one direction only), dead chips; one net per case with fan-out 0-12, sinks on the source chip, "
@@ -343,6 +349,9 @@ def eval_cases(ctx, cases):
                          order=rec["order"], sinks=sinks_json(net), legacy=False))
         if "ok" in res:
             reqs.append(mreq(mach, op="valid_tree", source=src, sinks=sinks_json(net), tree=res["ok"]["tree"]))
+        for call in rec["astar_calls"]:
+            if "path" in call:
+                reqs.append(mreq(mach, op="path_ok", sink=call["sink"], sources=call["sources"], path=call["path"]))
     replies = iter(ctx.lean(reqs))
     legacy_q = []
     for c, (res, rec) in zip(cases, impl):
@@ -350,6 +359,10 @@ def eval_cases(ctx, cases):
         minfo = next(replies)
         model = next(replies)
         verdict = next(replies) if "ok" in res else None
+        for call in rec["astar_calls"]:
+            if "path" in call and next(replies) is not True:
+                ctx.mismatch("c03.a_star_spec", "the Lean specification pathOk is false on a path a_star returned "
+                             "inside route(): %s" % str(call)[:300], c)
         ctx.traces += 1
         # --- helpers of the specification, model vs independent Python / implementation
         strong = py_strong(mach)
@@ -439,6 +452,67 @@ def eval_cases(ctx, cases):
 
 
 # --------------------------------------------------------------------------------------------
+# component streams: a_star and longest_dimension_first called directly (inputs route() rarely produces)
+def gen_component(rng):
+    mach = gen_machine(rng, SIZES_Q)
+    dead = set(map(tuple, mach["dead_chips"]))
+    live = [(x, y) for x in range(mach["w"]) for y in range(mach["h"]) if (x, y) not in dead]
+    if rng.random() < 0.6 and len(live) >= 2:
+        sink = rng.choice(live)
+        others = [c for c in live if c != sink]
+        srcs = rng.sample(others, min(len(others), rng.choice([1, 1, 2, 3, 6])))
+        return dict(kind="a_star", machine=mach, sink=list(sink), sources=sorted(map(list, srcs)),
+                    hsrc=list(rng.choice(srcs)), wrap=rng.random() < 0.5)
+    k = rng.choice([0, 1, 2, 5, 13])
+    vec = [rng.randint(-k, k), rng.randint(-k, k), rng.choice([0, 0, rng.randint(-k, k)])]
+    return dict(kind="ldf", machine=mach, vector=vec, start=list(rng.choice(live)), rseed=rng.randrange(1 << 30))
+
+
+def eval_components(ctx, cases):
+    from rig.place_and_route.route import ner
+    from rig.place_and_route.route import utils as rutils
+    reqs, outs = [], []
+    for c in cases:
+        mach = c["machine"]
+        if c["kind"] == "a_star":
+            try:
+                path = ner.a_star(tuple(c["sink"]), tuple(c["hsrc"]), set(map(tuple, c["sources"])),
+                                  build_machine(mach), c["wrap"])
+                out = {"ok": [[int(d), n[0], n[1]] for d, n in path]}
+            except Exception as e:
+                out = {"err": err_name(e)}
+            reqs.append(mreq(mach, op="a_star", sink=c["sink"], hsrc=c["hsrc"], sources=c["sources"], wrap=c["wrap"]))
+            reqs.append(mreq(mach, op="path_ok", sink=c["sink"], sources=c["sources"], path=out.get("ok", [])))
+        else:
+            tape = []
+            fake = FakeRandom(c["rseed"], tape)
+            orig = rutils.random
+            rutils.random = fake
+            try:
+                p = rutils.longest_dimension_first(tuple(c["vector"]), tuple(c["start"]), mach["w"], mach["h"])
+                out = {"ok": [[int(d), n[0], n[1]] for d, n in p]}
+            except Exception as e:
+                out = {"err": err_name(e)}
+            finally:
+                rutils.random = orig
+            reqs.append(dict(suite="c03", op="ldf", vector=c["vector"], start=c["start"], w=mach["w"], h=mach["h"],
+                             tape=tape))
+            reqs.append(mreq(mach, op="hops_from", start=c["start"], path=out.get("ok", [])))
+        outs.append(out)
+    rep = iter(ctx.lean(reqs))
+    for c, out in zip(cases, outs):
+        model, spec = next(rep), next(rep)
+        ctx.traces += 1
+        if model != out:
+            ctx.mismatch("c03.%s_direct" % c["kind"], "model=%s impl=%s" % (str(model)[:300], str(out)[:300]), c)
+        if "ok" in out and spec is not True:
+            ctx.mismatch("c03.%s_spec" % c["kind"], "the Lean specification of %s is false on the implementation's "
+                         "output %s" % (c["kind"], str(out)[:300]), c)
+        ctx.tag("direct_%s_%s" % (c["kind"], "ok" if "ok" in out else out["err"]))
+        ctx.case(c, c["kind"] == "a_star" and len(out.get("ok", [])) >= 3)
+
+
+# --------------------------------------------------------------------------------------------
 SIZES_Q = [(1, 1), (1, 2), (2, 1), (1, 4), (5, 1), (2, 2), (2, 3), (2, 6), (7, 2), (3, 3), (3, 4), (4, 4), (5, 5),
            (6, 6), (6, 4), (8, 8), (8, 8), (12, 12)]
 
@@ -486,8 +560,15 @@ def run(ctx):
         cases += exhaustive_small(ctx)
     for i in range(0, len(cases), 2000):
         eval_cases(ctx, cases[i:i + 2000])
+    comp = [gen_component(ctx.rng) for _ in range(n // 3)]
+    for i in range(0, len(comp), 5000):
+        eval_components(ctx, comp[i:i + 5000])
 
 
 def replay(ctx, payload):
     ctx.extra["rule"] = RULE
-    eval_cases(ctx, [payload["case"]])
+    case = payload["case"]
+    if case.get("kind") in ("a_star", "ldf"):
+        eval_components(ctx, [case])
+    else:
+        eval_cases(ctx, [case])
